@@ -155,12 +155,12 @@ type c32State struct {
 	gone        map[string]bool      // a removal of this id was requested and acknowledged, or a join for it is in progress
 	looseRemove map[string]bool      // a removal of this id was requested with unknown outcome: it may land at any later time
 
-	lastResp    map[[2]string]time.Time // [dialer host, responder host] -> time of last response bytes delivered
-	cutSince    map[[2]string]time.Time // [from host, to host] -> instant since which "to" cannot answer "from" (down or partitioned); absent = reachable
-	prevCfg     map[*node.Node]map[string]*store.Server
-	prevLeader  map[*node.Node]bool
-	checks      int
-	acked       int
+	lastResp   map[[2]string]time.Time // [dialer host, responder host] -> time of last response bytes delivered
+	cutSince   map[[2]string]time.Time // [from host, to host] -> instant since which "to" cannot answer "from" (down or partitioned); absent = reachable
+	prevCfg    map[*node.Node]map[string]*store.Server
+	prevLeader map[*node.Node]bool
+	checks     int
+	acked      int
 }
 
 func (st *c32State) live() []*c32Inst {
